@@ -170,11 +170,12 @@ func (c *Client) StatBlobs(ctx context.Context, blobs []blob.Ref, fn func(blob.S
 	if len(needStat) == 0 {
 		return nil
 	}
-	return blobserver.StatBlobsParallelHelper(ctx, blobs, fn, c.httpGate, func(br blob.Ref) (workerSB blob.SizedRef, err error) {
+	return blobserver.StatBlobsParallelHelper(ctx, needStat, fn, c.httpGate, func(br blob.Ref) (workerSB blob.SizedRef, err error) {
 		err = c.doStat(ctx, []blob.Ref{br}, 0, false, func(sb blob.SizedRef) error {
+			// StatBlobsParallelHelper calls fn (serialized) with the value returned here.
 			workerSB = sb
 			c.haveCache.NoteBlobExists(sb.Ref, sb.Size)
-			return fn(sb)
+			return nil
 		})
 		return
 	})
